@@ -45,7 +45,7 @@ CASE_TIMEOUT = 3600
 RULE = ("rw: every program of the fprog declaration corpus (feature sets of size "
         "<= 2, quick; + pairs x snippets and core triples, thorough) is read and "
         "written once; ord: every dependency-closed subset (<= 4 / 5 entities) of a "
-        "16-entity pool x every insertion order x {routine, module} table; scp: "
+        "19-entity pool x every insertion order (+ the orders starting with the kind parameter followed by rename_symbol of it, which moves it to the end) x {routine, module} table; scp: "
         "every subset of {module, routine, loop body, if body, else body} x {x, x_1} "
         "(thorough: + {routine, loop body, if body} x {x_2}) as symbol placements; bfs: every history of <= depth_full "
         "operations of the full alphabet (22 transformations x every matching node) "
@@ -262,10 +262,7 @@ def cases(tier):
                 yield {"key": f"rw:{cls}:{start // step:04d}", "kind": "rw",
                        "progs": progs[start:start + step]}
     if "ord" in cfg["groups"]:
-        items = []
-        for scope, subset in api.order_specs(tier):
-            for perm in api.order_perms(subset):
-                items.append([scope, list(subset), list(perm)])
+        items = api.order_items(tier)
         step = cfg["ord_block"]
         for start in range(0, len(items), step):
             yield {"key": f"ord:{start // step:04d}", "kind": "ord",
@@ -499,13 +496,17 @@ def _run_ord(case):
     batch = _Batch(["c04s", "c04m"])
     sample = None
     nontrivial = 0
-    for scope, subset, perm in case["items"]:
-        key = api.order_key(scope, subset, perm)
-        root = api.build_order(scope, tuple(subset), tuple(perm))
+    for item in case["items"]:
+        scope, subset, perm = item[:3]
+        rename = bool(item[3]) if len(item) > 3 else False
+        key = api.order_key(scope, subset, perm, rename)
+        root = api.build_order(scope, tuple(subset), tuple(perm), rename)
         written = core.write(root)
-        payload = {"kind": "ord", "item": [scope, subset, perm]}
+        payload = {"kind": "ord", "item": [scope, subset, perm, rename]}
         context = (f"{'routine' if scope == 'r' else 'module'} table with "
-                   f"{', '.join(subset[i] for i in perm)} added in this order")
+                   f"{', '.join(subset[i] for i in perm)} added in this order"
+                   + (f", then kp renamed to {api.RENAMED_KIND} with "
+                      f"rename_symbol (moved to the end)" if rename else ""))
         text = _writer_outcome(batch, key, "ord", written, context, payload)
         if text is None:
             continue
